@@ -487,7 +487,7 @@ pub fn table_of(a: &Airplanes) -> Vec<Row> {
             Some(d) => (format!("{:.3}", d.position.latitude), format!("{:.3}", d.position.longitude), d.altitude.to_string(), format!("{:.3}", d.kilo_distance), Some((d.position.latitude, d.position.longitude, d.kilo_distance))),
             None => (String::new(), String::new(), String::new(), String::new(), None),
         };
-        v.push(Row { icao: format!("{k}"), callsign: st.callsign.clone().unwrap_or_default(), lat, lon, alt, dist, msgs: st.num_messages.to_string(), vals });
+        v.push(Row { icao: format!("{:02x}{:02x}{:02x}", k.0[0], k.0[1], k.0[2]), callsign: st.callsign.clone().unwrap_or_default(), lat, lon, alt, dist, msgs: st.num_messages.to_string(), vals });
     }
     v
 }
